@@ -183,9 +183,12 @@ fn drain(flop: &[Card; 3], ranges: &Vec<HandRange>, scope: Option<(u8, u8, u8, u
     if let Some(s) = scope { ev.scope(s.0, s.1, s.2, s.3); }
     let mut it = ev.into_iter();
     let mut out = vec![];
+    // more showdowns than positions x combos means the iterator does not terminate
+    let bound = ranges.iter().fold(1176usize, |a, r| a.saturating_mul(r.card_pairs().len().max(1))).saturating_add(8);
     while let Some(sd) = it.next() {
         let combos: Vec<CardPair> = sd.players().iter().map(|p| p.hole_cards()).collect();
         out.push((*sd.board(), combos, sd.probability()));
+        if out.len() > bound { panic!("iterator yields more showdowns than positions x combos: not terminating"); }
     }
     // stays exhausted
     for _ in 0..3 { if it.next().is_some() { out.push(([flop[0]; 5], vec![], -1.0)); } }
@@ -197,10 +200,18 @@ fn drain(flop: &[Card; 3], ranges: &Vec<HandRange>, scope: Option<(u8, u8, u8, u
 /// for the overall count, exactly.
 fn run_scope(flop: &[Card; 3], ranges: &Vec<HandRange>, sc: Option<(u8, u8, u8, u8)>) -> Result<Vec<Deal>, String> {
     let fl = *flop; let rg = ranges.clone();
-    // a default-sized (2 MiB) thread stack, as in the property statement
-    let h = std::thread::Builder::new().stack_size(2 * 1024 * 1024).spawn(move || drain(&fl, &rg, sc)).unwrap();
-    h.join().map_err(|_| format!("panic while iterating scope {:?}", sc))
+    let (tx, rx) = std::sync::mpsc::channel();
+    // a default-sized (2 MiB) thread stack, as in the property statement; a watchdog turns
+    // non-termination into a reported failure (the runaway thread dies with the process)
+    let h = std::thread::Builder::new().stack_size(2 * 1024 * 1024).spawn(move || { let r = drain(&fl, &rg, sc); let _ = tx.send(r); }).unwrap();
+    match rx.recv_timeout(std::time::Duration::from_secs(WATCHDOG_S)) {
+        Ok(r) => { let _ = h.join(); Ok(r) }
+        Err(std::sync::mpsc::RecvTimeoutError::Timeout) => Err(format!("panic-or-hang: scope {:?} did not finish within {} s (non-termination)", sc, WATCHDOG_S)),
+        Err(_) => Err(format!("panic while iterating scope {:?}", sc)),
+    }
 }
+
+pub const WATCHDOG_S: u64 = 30;
 
 fn same(g: &Deal, w: &Deal) -> bool {
     g.0 == w.0 && g.1 == w.1 && (g.2 == w.2 || (g.2.is_nan() && w.2.is_nan()))
